@@ -37,6 +37,16 @@ SAFE_STR_METHODS = {'startswith', 'endswith', 'lower', 'upper', 'strip', 'lstrip
                     'removeprefix', 'removesuffix', 'capitalize', 'title', 'replace'}
 
 
+class Obj:
+    """A checker-made object whose attributes the interpreted code may read and write;
+    `_methods` maps method names to repo FunctionDef nodes interpreted with self bound."""
+
+    def __init__(self, _methods: dict | None = None, **attrs):
+        object.__setattr__(self, '_methods', _methods or {})
+        for k, v in attrs.items():
+            object.__setattr__(self, k, v)
+
+
 class MiniEval:
     def __init__(self, globals_: dict[str, Any], *, calls: dict[str, Callable] | None = None,
                  methods: Callable[[Any, str, list, dict], Any] | None = None):
@@ -115,6 +125,25 @@ class MiniEval:
             else:
                 self.block(s.orelse, env)
             return
+        if isinstance(s, ast.While):
+            n = 0
+            while self.truth(self.expr(s.test, env)):
+                n += 1
+                if n > 10000:
+                    raise Unsupported('loop bound exceeded')
+                try:
+                    self.block(s.body, env)
+                except _Break:
+                    break
+                except _Continue:
+                    continue
+            else:
+                self.block(s.orelse, env)
+            return
+        if isinstance(s, ast.AugAssign):
+            cur = self.expr(s.target, env)
+            self.assign(s.target, self.binop(s.op, cur, self.expr(s.value, env)), env)
+            return
         if isinstance(s, ast.Break):
             raise _Break()
         if isinstance(s, ast.Continue):
@@ -162,6 +191,11 @@ class MiniEval:
     def assign(self, t: ast.expr, v: Any, env: dict) -> None:
         if isinstance(t, ast.Name):
             env[t.id] = v
+        elif isinstance(t, ast.Attribute):
+            base = self.expr(t.value, env)
+            if not isinstance(base, Obj):
+                raise Unsupported(f'attribute store on {type(base).__name__}')
+            object.__setattr__(base, t.attr, v)
         elif isinstance(t, (ast.Tuple, ast.List)):
             vals = list(v)
             if len(vals) != len(t.elts):
@@ -191,12 +225,16 @@ class MiniEval:
             return e.value
         if isinstance(e, ast.Name):
             return self.lookup(e.id, env)
-        if isinstance(e, ast.Tuple):
-            return tuple(self.expr(x, env) for x in e.elts)
-        if isinstance(e, ast.List):
-            return [self.expr(x, env) for x in e.elts]
-        if isinstance(e, ast.Set):
-            return {self.expr(x, env) for x in e.elts}
+        if isinstance(e, (ast.Tuple, ast.List, ast.Set)):
+            items: list = []
+            for x in e.elts:
+                if isinstance(x, ast.Starred):
+                    items.extend(self.expr(x.value, env))
+                else:
+                    items.append(self.expr(x, env))
+            if isinstance(e, ast.Tuple):
+                return tuple(items)
+            return items if isinstance(e, ast.List) else set(items)
         if isinstance(e, ast.Dict):
             return {self.expr(k, env): self.expr(v, env) for k, v in zip(e.keys, e.values) if k is not None}
         if isinstance(e, ast.BoolOp):
@@ -257,6 +295,11 @@ class MiniEval:
         raise Unsupported(f'expression {type(e).__name__} at line {getattr(e, "lineno", "?")}')
 
     def attribute(self, e: ast.Attribute, env: dict) -> Any:
+        base = self.expr(e.value, env)
+        if isinstance(base, Obj) and not e.attr.startswith('__'):
+            if hasattr(base, e.attr):
+                return getattr(base, e.attr)
+            raise Unsupported(f'attribute {e.attr!r} not modelled on checker object')
         raise Unsupported(f'attribute access {ast.unparse(e)}')
 
     def comprehension(self, e, env: dict) -> Any:
@@ -349,6 +392,8 @@ class MiniEval:
                     self.globals = saved
             if f.id in self.calls:
                 return self.calls[f.id](*args, **kwargs)
+            if isinstance(fv, type):
+                return fv(*args, **kwargs)  # a checker-supplied class (stand-in for a repo class)
             if f.id == 'isinstance' and len(args) == 2:
                 return self.isinstance_(args[0], args[1])
             if f.id in ('len', 'bool', 'str', 'tuple', 'list', 'set', 'frozenset', 'dict', 'sorted', 'any', 'all',
@@ -358,6 +403,8 @@ class MiniEval:
             raise Unsupported(f'call of {f.id!r}')
         if isinstance(f, ast.Attribute):
             recv = self.expr(f.value, env)
+            if isinstance(recv, Obj) and f.attr in recv._methods:
+                return self.call_function(recv._methods[f.attr], [recv, *args], kwargs)
             if self.methods is not None:
                 r = self.methods(recv, f.attr, args, kwargs)
                 if r is not NotImplemented:
